@@ -6,6 +6,7 @@ pub mod c11;
 pub mod c12;
 pub mod c16;
 pub mod c17;
+pub mod c18;
 pub mod c19;
 
 pub fn run(id: &str, tier: Tier) -> Option<Report> {
@@ -16,6 +17,7 @@ pub fn run(id: &str, tier: Tier) -> Option<Report> {
         "C12" => c12::run(tier),
         "C16" => c16::run(tier),
         "C17" => c17::run(tier),
+        "C18" => c18::run(tier),
         "C19" => c19::run(tier),
         _ => return None,
     })
@@ -50,6 +52,7 @@ pub fn replay(path: &str) -> i32 {
         "C12" => c12::replay(case),
         "C16" => c16::replay(case),
         "C17" => c17::replay(case),
+        "C18" => c18::replay(case),
         _ => {
             eprintln!("no replay for property {id}");
             return 2;
